@@ -11,6 +11,7 @@
 package main
 
 import (
+	"encoding/hex"
 	"encoding/json"
 	"fmt"
 	"math/big"
@@ -143,6 +144,8 @@ func scripted() []script {
 	sp := Spec{Chains: []string{"eth", "bsc", "tron"}, ModChains: []string{"eth", "bsc"}, ExtChains: []string{"eth"}}
 	spi := sp
 	spi.ModIBC = true
+	spf := sp
+	spf.ExtFalse = true
 	return []script{
 		{"C04 C05", "bulk: 104 pending transfers against the batch size of 100", sp, bulkOps()},
 		{"C08", "conversions to blocked receivers (erc20 module, chain module) and to the pair contract", sp, []Op{
@@ -223,6 +226,17 @@ func scripted() []script {
 			{K: "BridgeCallIn", C: 2, A: cRe, B: cRe, To: cRe, Toks: [][2]int64{{1, 250}}, Flag: true},
 			{K: "SendToExternal", C: 1, T: 1, A: 100, X: 600, Y: 2},
 		}},
+		{"C04", "inbound bridge calls with the send-call-to memo marker: the SENDER's account is credited (pre-funded and not), `to` is only called", sp, []Op{
+			{K: "BridgeCallIn", C: 1, S: 101, To: 100, B: 100, Toks: [][2]int64{{0, 500}}, Memo: 2, Flag: true},
+			{K: "BridgeCallIn", C: 1, S: 102, To: cOK, B: 102, Toks: [][2]int64{{1, 700}}, Memo: 2, Flag: true},
+			{K: "BridgeCallIn", C: 1, S: 102, To: 103, B: 103, Toks: [][2]int64{{1, 400}}, Memo: 2, Flag: true},
+			{K: "BridgeCallIn", C: 1, S: 101, To: cBad, B: 103, Toks: [][2]int64{{0, 300}}, Memo: 2, Flag: false},
+			{K: "BridgeCallIn", C: 1, S: 101, To: 100, B: 100, Toks: [][2]int64{{0, 200}}, Memo: 1, Flag: true},
+			{K: "BridgeCallIn", C: 1, S: 101, To: cOK, B: 100, Toks: [][2]int64{{1, 150}}, Memo: 1, X: 1, Flag: true},
+			{K: "BridgeCallIn", C: 2, S: 100, To: cRe, B: 100, Toks: [][2]int64{{1, 250}}, Memo: 2, Flag: true},
+			{K: "PreCrossChain", C: 1, T: 1, A: 102, X: 1000, Y: 5}, // the credited sender can withdraw what it was credited (ERC-20)
+		}},
+		{"C04 C08", "externally-owned token that returns false instead of reverting: transfers it cannot do through every entry point", spf, falseTokenOps()},
 		{"C04 C01", "scale: a deposit left unexecuted while 103 further events of its chain are observed, executed afterwards", sp, parkedOps()},
 	}
 }
@@ -240,6 +254,30 @@ func parkedOps() []Op {
 		}
 	}
 	return append(ops, Op{K: "ExecParked", C: 1}, Op{K: "SendToExternal", C: 1, T: 1, A: 100, X: 990, Y: 10})
+}
+
+// falseTokenOps: the externally-owned token signals failure by returning false (users hold 20000 each): amounts above the
+// balance / allowance through the precompile (crossChain, increaseBridgeFee, bridgeCall), MsgConvertERC20 and a plain transfer,
+// interleaved with the same calls within the balance
+func falseTokenOps() []Op {
+	return []Op{
+		{K: "ObserveJump", C: 1, X: 0},
+		{K: "PreCrossChain", C: 1, T: 2, A: 101, X: 30000, Y: 5},
+		{K: "PreCrossChain", C: 1, T: 2, A: 101, X: 19990, Y: 11},
+		{K: "PreCrossChain", C: 1, T: 2, A: 101, X: 600, Y: 4},
+		{K: "PreIncreaseFee", C: 1, T: 2, A: 101, ID: 1, X: 25000},
+		{K: "PreIncreaseFee", C: 1, T: 2, A: 102, ID: 1, X: 20001},
+		{K: "PreIncreaseFee", C: 1, T: 2, A: 102, ID: 1, X: 7},
+		{K: "Erc20Transfer", T: 2, A: 100, B: 103, X: 20001},
+		{K: "Erc20Transfer", T: 2, A: 100, B: 103, X: 5000},
+		{K: "ConvertERC20", T: 2, A: 100, B: 100, X: 15001},
+		{K: "ConvertERC20", T: 2, A: 100, B: 100, X: 3000},
+		{K: "PreBridgeCall", C: 1, A: 103, B: 103, Toks: [][2]int64{{2, 25001}}},
+		{K: "ConvertCoin", T: 2, A: 100, B: 101, X: 1000},
+		{K: "PreCrossChain", C: 1, T: 2, A: 103, X: 24000, Y: 1000},
+		{K: "PreCrossChain", C: 1, T: 2, A: 103, X: 24000, Y: 1001},
+		{K: "Cancel", C: 1, A: 101, ID: 1},
+	}
 }
 
 // zeroOps: amounts / fees of 0 through every entry point (most are refused by ValidateBasic or by the keepers; some are
@@ -319,6 +357,7 @@ func pickSpec(r *lib.Rand) Spec {
 	if r.Chance(25) {
 		sp.Mod2 = sub("", 1)
 	}
+	sp.ExtFalse = r.Chance(35)
 	return sp
 }
 
@@ -622,6 +661,24 @@ func (w *World) perform(o *Op, record func(Op, error), mon *Monitor) perfResult 
 		return perfResult{ok: err == nil, err: err, executed: err == nil}
 	case "BridgeCallIn":
 		h := nextH()
+		if o.S == 0 { // (older scripts / replays: any tracked user other than `to`)
+			o.S = uBase + 3
+			if o.To == o.S {
+				o.S = uBase + 2
+			}
+		}
+		// the harness' own reading of who is credited (for the monitors; the model computes it from the memo flag itself)
+		o.A = o.To
+		if o.Memo == 2 {
+			o.A = o.S
+		}
+		memo := ""
+		switch o.Memo {
+		case 1:
+			memo = []string{"c0ffee", "0000000000000000000000000000000000000000000000000000000000010001", "00010000"}[int(o.X)%3]
+		case 2:
+			memo = hex.EncodeToString(crosschaintypes.MemoSendCallTo.Bytes())
+		}
 		var contracts []string
 		var amounts []sdkmath.Int
 		for _, p := range o.Toks {
@@ -634,12 +691,12 @@ func (w *World) perform(o *Op, record func(Op, error), mon *Monitor) perfResult 
 			amounts = append(amounts, sdkmath.NewInt(p[1]))
 		}
 		if o.To == cRe {
-			w.armReentrant(c, w.nonce[c]+1, o.Toks)
+			w.armReentrant(c, w.nonce[c]+1, o.Toks, o.A)
 		}
 		n, ok := w.observe(c, h, func(n, h uint64) crosschaintypes.ExternalClaim {
-			return &crosschaintypes.MsgBridgeCallClaim{EventNonce: n, BlockHeight: h, Sender: lib.ExternalAccount(w.C.Seed, chainName(c), 4),
+			return &crosschaintypes.MsgBridgeCallClaim{EventNonce: n, BlockHeight: h, Sender: w.extAddr(c, o.S),
 				Refund: w.extAddr(c, o.B), TokenContracts: contracts, Amounts: amounts, To: w.extAddr(c, o.To), Data: "", Value: sdkmath.ZeroInt(),
-				Memo: "", TxOrigin: lib.ExternalAccount(w.C.Seed, chainName(c), 3)}
+				Memo: memo, TxOrigin: lib.ExternalAccount(w.C.Seed, chainName(c), 3)}
 		})
 		if !ok {
 			record(Op{K: "Observe", C: c, H: int64(h)}, obsFail)
